@@ -10,7 +10,7 @@ Open Scope N_scope.
 Fixpoint futs (oid : nat) (effs : list effect) : nat :=
   match effs with
   | [] => 0
-  | XFut j _ :: r => (if Nat.eqb j oid then 1 else 0) + futs oid r
+  | XFut j _ _ _ :: r => (if Nat.eqb j oid then 1 else 0) + futs oid r
   | _ :: r => futs oid r
   end%nat.
 
